@@ -39,6 +39,11 @@ class World:
         for i, k in enumerate(kinds):
             if k == "t":
                 o = self.base.new_tag(pick(i, ["x", "x", "y"]) if self.twin else f"t{i}")
+                # some ordinary tags carry `hidden = True` (the rendering switch the BeautifulSoup object uses, kept alive for tags by
+                # test_hidden_tag_is_invisible): it must not matter to any link; a function of the world's shape, so replays repeat it
+                if (i * 7 + len(kinds)) % 6 == 0:
+                    o.hidden = True
+                    self.hidden_tags = getattr(self, "hidden_tags", 0) + 1
             elif k == "r":
                 o = BeautifulSoup("", "html.parser")
                 if self.twin:
